@@ -102,7 +102,11 @@ func (g *Group) ShareOfKind(i int, k string, rng *rand.Rand) crypto.Signature {
 		return p.Add(ref.Order3E1(rng)).Compress()
 	default: // "m"
 		b := append([]byte(nil), g.Shares[i]...)
-		switch rng.Intn(3) {
+		switch rng.Intn(5) {
+		case 3:
+			return b[:47] // one byte short
+		case 4:
+			return append(b, 0) // one byte long
 		case 0:
 			b[0] &= 0x7f // compression flag cleared
 		case 1:
